@@ -773,6 +773,16 @@ def _dir_becomes_file_path_reused(ctx, rng, wt, w, counter, log):
     return True
 
 
+_UID = [0]
+
+
+def _uid(name):
+    """A file id never used before in this process (the model's new_id() restarts from the entry count after a resync, so it
+    can hand out an id that an earlier revision has at another path)."""
+    _UID[0] += 1
+    return "s%d-%s" % (_UID[0], "".join(ch for ch in name if ch.isalnum())[:8])
+
+
 def _do(wt, w, op, log):
     gen.apply_real(wt, op)
     w.apply(op)
@@ -849,7 +859,7 @@ def _prefix_named_sibling(ctx, rng, wt, w, log):
             if n is None:
                 return False
             _do(wt, w, {"op": "mkfile", "path": n, "content": gen.gen_content(rng)}, log)
-            _do(wt, w, {"op": "add", "path": n, "id": w.new_id(os.path.basename(n))}, log)
+            _do(wt, w, {"op": "add", "path": n, "id": _uid(os.path.basename(n))}, log)
         ctx.hist("shape:change-below-prefix-named-sibling")
         return True
     cands = [i for i in _live(w) if w.ents[w.ents[i].parent].kind == "directory" or w.ents[i].parent == model.ROOT]
@@ -862,8 +872,8 @@ def _prefix_named_sibling(ctx, rng, wt, w, log):
                 continue
             _do(wt, w, {"op": "mkdir", "path": q}, log)
             _do(wt, w, {"op": "mkfile", "path": q + "/f1", "content": gen.gen_content(rng)}, log)
-            _do(wt, w, {"op": "add", "path": q, "id": w.new_id(os.path.basename(q))}, log)
-            _do(wt, w, {"op": "add", "path": q + "/f1", "id": w.new_id("f1")}, log)
+            _do(wt, w, {"op": "add", "path": q, "id": _uid(os.path.basename(q))}, log)
+            _do(wt, w, {"op": "add", "path": q + "/f1", "id": _uid("f1")}, log)
             ctx.hist("shape:prefix-named-sibling-created")
             return True
     return False
